@@ -496,3 +496,17 @@ func capsFunc(c *Ctx) *ssa.Function {
 	}
 	return f0
 }
+
+// verbTag: how the dispatcher's switch describes the command verb it compares with the upper-case constants —
+// `strings.ToUpper(param1)` on the tree as it is; `param1` if the (redundant: parseCmd already upper-cases the verb)
+// conversion in handle is dropped.
+func verbTag(c *Ctx) string {
+	if f := c.A.Func("(*Conn).handle"); f != nil {
+		if tag, keys := switchTag(c, f); tag != "" && len(keys) >= 10 {
+			if tag == "param1" || tag == "strings.ToUpper(param1)" {
+				return tag
+			}
+		}
+	}
+	return "strings.ToUpper(param1)"
+}
